@@ -365,6 +365,9 @@ class _ModelHandle:
     def close(self):
         pass
 
+    def __getattr__(self, name):
+        raise H.Poison("modelled file handle used through %r (outside the model)" % name)
+
 
 class _ModelPath:
     """Path-like object for the modelled file (whatever way the library reads a path: open(path),
@@ -381,6 +384,9 @@ class _ModelPath:
 
     def read_text(self, encoding=None, errors=None, newline=None):
         return self.mf.content("r", encoding=encoding, newline=newline)
+
+    def __getattr__(self, name):
+        raise H.Poison("modelled path used through %r (outside the model)" % name)
 
 
 def _real_file_parse(text, bom, want):
